@@ -1,7 +1,6 @@
 package parse
 
 import (
-	"bufio"
 	"strings"
 )
 
@@ -11,9 +10,10 @@ const (
 )
 
 func SettingLines(comment string) (lines []string) {
-	scanner := bufio.NewScanner(strings.NewReader(comment))
-	for scanner.Scan() {
-		line := strings.TrimSpace(scanner.Text())
+	// no bufio.Scanner: it gives up at lines longer than 64 KiB and would
+	// drop that line and every line after it
+	for _, line := range strings.Split(comment, "\n") {
+		line := strings.TrimSpace(line)
 		if strings.HasPrefix(line, Prefix+Delimiter) {
 			line := strings.TrimPrefix(line, Prefix+Delimiter)
 			lines = append(lines, line)
